@@ -215,7 +215,14 @@ static char *emit_mu_state (struct emit_buf *b, nsync_mu *mu,
                 emit_waiters (b, mu->waiters);
         }
         if (acquired) {
-                ATM_STORE_REL (&mu->word, word); /* release store */
+                /* Release the spinlock.  Cannot use a store here, because the
+                   current thread does not hold the mutex: other threads may
+                   have changed other bits of the word while the spinlock
+                   was held.  */
+                uint32_t old_word = ATM_LOAD (&mu->word);
+                while (!ATM_CAS_REL (&mu->word, old_word, old_word & ~MU_SPINLOCK)) {
+                        old_word = ATM_LOAD (&mu->word);
+                }
         }
         emit_c (b, 0);
         IGNORE_RACES_END ();
